@@ -37,6 +37,7 @@ class Crate:
                 merge_guarded_arms(b["body"])
                 if b.get("dk") in ("Fn", "AssocFn"):
                     lower_cursor_loop(b)
+                    lower_fold_loop(b)
 
     def _annotate(self):
         """resolve interned type indices to strings in place (ty, adj, owner, gen)"""
@@ -675,3 +676,100 @@ def _lower_cursor_loop_in(fnrec, root, b, stmts, params, pid):
                                                            "b": {"stmts": [{"k": "SSemi", "e": {"k": "Ret", "e": self_call(arg), "ty": "!", "sp": sp}}]}}}})
         stmts[j - 1:j + 1] = new_stmts
         return
+
+
+def peel(t):
+    """type string without leading references"""
+    t = str(t)
+    while t.startswith("&"):
+        t = t[1:].lstrip()
+        if t.startswith("mut "):
+            t = t[4:]
+    return t
+
+
+def lower_fold_loop(fnrec):
+    """A fold over a slice parameter with one cursor that starts as a parameter and is returned at the end is structural recursion on the slice:
+         let mut c = p;  for x in s { B; c = E; }  c        ==   if s.is_empty() { return p }  B[p, s[0]];  return f(E[p, s[0]], s[1..], other params)
+       (no break / continue / return / nested loop in B; p, s and c are used nowhere else). Rewritten in place."""
+    import copy
+    root = strip(fnrec["body"])
+    if not isinstance(root, dict) or root.get("k") != "Block":
+        return
+    params = [p for p in fnrec.get("params", []) if p.get("k") == "Bind"]
+    if len(params) != len(fnrec.get("params", [])):
+        return
+    pids = {p["id"] for p in params}
+    b = root["b"]
+    stmts = b["stmts"]
+    if len(stmts) < 2 or "expr" not in b:
+        return
+    let, st = stmts[-2], stmts[-1]
+    tail = strip(b["expr"])
+    if not (let.get("k") == "SLet" and "init" in let and "els" not in let and let["pat"].get("k") == "Bind" and st.get("k") in ("SExpr", "SSemi")):
+        return
+    cid = let["pat"]["id"]
+    init = strip(let["init"])
+    fl = strip(st["e"])
+    if not (init.get("k") == "Path" and init.get("r") == "local" and init.get("id") in pids and tail.get("k") == "Path" and tail.get("id") == cid):
+        return
+    if not (fl.get("k") == "Match" and fl.get("src") == "ForLoopDesugar" and strip(fl["scrut"]).get("k") == "Call"):
+        return
+    it = strip(strip(fl["scrut"])["args"][0])
+    if not (it.get("k") == "Path" and it.get("r") == "local" and it.get("id") in pids and it.get("id") != init.get("id")
+            and peel(it.get("ty", "")).startswith("[")):
+        return
+    try:
+        inner = strip(strip(fl["arms"][0]["body"])["body"]["stmts"][0]["e"])
+        some = [a for a in inner["arms"] if str(a["pat"].get("path", "")).endswith("::Some")][0]
+    except (KeyError, IndexError, TypeError):
+        return
+    sp_ = some["pat"]
+    sub = sp_["fields"][0]["p"] if sp_.get("k") == "PStruct" else sp_["ps"][0]
+    body = strip(some["body"])
+    if sub.get("k") != "Bind" or body.get("k") != "Block" or "expr" in body["b"] or not body["b"]["stmts"]:
+        return
+    xid = sub["id"]
+    lstmts = body["b"]["stmts"]
+    asg = strip(lstmts[-1].get("e")) if lstmts[-1].get("k") in ("SExpr", "SSemi") else None
+    if not (isinstance(asg, dict) and asg.get("k") == "Assign" and strip(asg["l"]).get("k") == "Path" and strip(asg["l"]).get("id") == cid):
+        return
+    work = {"k": "Block", "b": {"stmts": lstmts[:-1]}}
+    if _has_loop_control(work) or any(x.get("k") == "Ret" for x in walk(work, into_closures=False)) \
+            or any(x.get("k") in ("Assign", "AssignOp") and strip(x["l"]).get("id") == cid for x in walk(work)):
+        return
+    uses = lambda i: [x for x in walk(root) if x.get("k") == "Path" and x.get("r") == "local" and x.get("id") == i]
+    inside = {id(x) for x in walk(fl)}
+    if len(uses(init["id"])) != 1 or len(uses(it["id"])) != 1 or any(id(x) not in inside for x in uses(cid) if x is not tail):
+        return
+    sp = fl.get("sp", "")
+    s_path = lambda: {"k": "Path", "r": "local", "id": it["id"], "name": it.get("name", ""), "ty": it.get("ty", ""), "sp": sp}
+    elem_ty = peel(it.get("ty", ""))[1:-1]
+    head = lambda: {"k": "Index", "base": s_path(), "idx": {"k": "Lit", "lk": "int", "v": "0", "suffix": "Unsuffixed", "ty": "usize"}, "ty": elem_ty, "sp": sp}
+    rest = {"k": "Index", "callee": "std::ops::Index::index", "base": s_path(), "ty": "[" + elem_ty + "]", "sp": sp,
+            "idx": {"k": "Struct", "r": "def", "dk": "Struct", "path": "std::ops::RangeFrom", "adt": "std::ops::RangeFrom", "variant": "RangeFrom", "ty": "std::ops::RangeFrom<usize>",
+                    "fields": [{"name": "start", "shorthand": False, "e": {"k": "Lit", "lk": "int", "v": "1", "suffix": "Unsuffixed", "ty": "usize"}}]}}
+    for x in list(walk(body)):
+        if x.get("k") == "Path" and x.get("r") == "local":
+            if x.get("id") == cid:
+                x["id"], x["name"] = init["id"], init.get("name", "self")
+            elif x.get("id") == xid:
+                keep = {k: x[k] for k in ("ty", "sp") if k in x}
+                x.clear()
+                x.update({"k": "AddrOf", "mut": False, "e": head()})
+                x.update(keep)
+    p_path = {"k": "Path", "r": "local", "id": init["id"], "name": init.get("name", "self"), "ty": init.get("ty", ""), "sp": sp}
+    args = []
+    for pp in params:
+        if pp["id"] == init["id"]:
+            args.append(asg["r"])
+        elif pp["id"] == it["id"]:
+            args.append({"k": "AddrOf", "mut": False, "e": rest, "ty": it.get("ty", ""), "sp": sp})
+        else:
+            args.append({"k": "Path", "r": "local", "id": pp["id"], "name": pp.get("name", ""), "ty": pp.get("ty", ""), "sp": sp})
+    call = {"k": "Call", "callee": fnrec["path"], "dk": fnrec.get("dk", "Fn"), "args": args, "ty": fnrec.get("output", ""), "sp": sp, "lowered": "fold-loop"}
+    guard = {"k": "SExpr", "e": {"k": "If", "ty": "()", "sp": sp,
+                                 "cond": {"k": "MethodCall", "name": "is_empty", "callee": "core::slice::<impl [T]>::is_empty", "recv": s_path(), "args": [], "ty": "bool", "sp": sp},
+                                 "then": {"k": "Block", "unsafe": False, "ty": "!", "sp": sp, "b": {"stmts": [{"k": "SSemi", "e": {"k": "Ret", "e": p_path, "ty": "!", "sp": sp}}]}}}}
+    stmts[-2:] = [guard] + lstmts[:-1] + [{"k": "SSemi", "e": {"k": "Ret", "e": call, "ty": "!", "sp": sp}}]
+    del b["expr"]
